@@ -12,6 +12,7 @@ Section ProofsGeoRef.
 Variables F Ftxt Cx Ctxt : Type.
 Variable pf : F -> Ftxt.
 Variable pc : Cx -> Ctxt.
+Variables enc_s enc_n : string -> string.
 Notation tok := (tok Ftxt Ctxt).
 Notation gitem := (gitem Ftxt Ctxt).
 Notation mesh := (mesh F Cx).
@@ -19,10 +20,10 @@ Notation attr := (attr F Cx).
 Notation TI := (@TInt Ftxt Ctxt).
 Notation TW := (@TWord Ftxt Ctxt).
 Notation loop := (@ref_geo_loop Ftxt Ctxt).
-Notation geo_chunks := (@geo_chunks F Ftxt Cx Ctxt pf pc).
-Notation print_geo := (@print_geo F Ftxt Cx Ctxt pf pc).
-Notation geo_user_attr := (@geo_user_attr F Ftxt Cx Ctxt pf pc).
-Notation print_aval := (@print_aval F Ftxt Cx Ctxt pf pc).
+Notation geo_chunks := (@geo_chunks F Ftxt Cx Ctxt pf pc enc_s enc_n).
+Notation print_geo := (@print_geo F Ftxt Cx Ctxt pf pc enc_s enc_n).
+Notation geo_user_attr := (@geo_user_attr F Ftxt Cx Ctxt pf pc enc_s enc_n).
+Notation print_aval := (@print_aval F Ftxt Cx Ctxt pf pc enc_s).
 Notation geo_atts := (@geo_atts Ftxt Ctxt).
 Notation geo_attr_head := (@geo_attr_head Ftxt Ctxt).
 Notation fl := (@fl F Ftxt Ctxt pf).
@@ -132,7 +133,7 @@ Lemma users_sized k n (l : list attr) : Forall (attr_sized n) l ->
 Proof.
   intros H. apply Forall_forall. intros c Hc. apply in_map_iff in Hc as [a [<- Ha]].
   rewrite Forall_forall in H. destruct (H a Ha) as [Hd Hl].
-  exists (qs (a_name a)), (qs (geo_type_string (a_ty a))), (geo_byte_size (a_ty a)), (a_ar a), (map print_aval (a_vals a)).
+  exists (qs (enc_n (a_name a))), (qs (geo_type_string (a_ty a))), (geo_byte_size (a_ty a)), (a_ar a), (map print_aval (a_vals a)).
   split; [reflexivity|]. split; [assumption|]. now rewrite map_length.
 Qed.
 
